@@ -137,6 +137,7 @@ type VC struct {
 	heldOnEntry map[string]bool
 	lockChecksOff bool
 	nquant int
+	immutable map[string]bool
 	merges [][]string
 	pendingAxioms []string
 	axiomDone map[int]bool
@@ -370,7 +371,7 @@ func (vc *VC) getIn(st *State, name, sort string) string {
 		return t
 	}
 	vc.recordSort(name, sort)
-	if st.epoch != "" && heapLike(name) {
+	if st.epoch != "" && heapLike(name) && !vc.immutableHeaps()[name] {
 		c := name + "@" + st.epoch
 		if !vc.declared[c] {
 			vc.declare(c, fmt.Sprintf("(declare-const %s %s)", c, sort))
@@ -532,8 +533,36 @@ func (vc *VC) loadIn(st *State, l *Loc) *Val {
 	return &Val{T: t, Ty: l.targetType()}
 }
 
+// immutableHeaps evaluates the `immutable` declarations to storage names.
+func (vc *VC) immutableHeaps() map[string]bool {
+	if vc.immutable != nil {
+		return vc.immutable
+	}
+	vc.immutable = map[string]bool{}
+	for _, im := range vc.p.db.Immutable {
+		if vc.p.tpkgs[im.Pkg] == nil && im.Pkg != "" {
+			continue
+		}
+		env := &Env{vars: map[string]*Val{}, st: vc.st, old: vc.st, pkg: im.Pkg, imports: im.Imports}
+		locs, err := vc.evalModEntry(im.Expr, env)
+		if err != nil {
+			// the type may not be part of this load; ignore
+			continue
+		}
+		for _, m := range locs {
+			if m.Idx == "" {
+				vc.immutable[m.Heap] = true
+			}
+		}
+	}
+	return vc.immutable
+}
+
 // store writes v at location l in the current state.
 func (vc *VC) store(l *Loc, v string, pos token.Pos) {
+	if l.Kind == RField && vc.immutableHeaps()[l.Heap] && vc.discovery == 0 {
+		vc.oblige("immutable", l.Heap, vc.isFresh(l.Base), pos, "field declared immutable is written on an object that is not being constructed")
+	}
 	vc.lockWriteCheck(l, pos)
 	sortS := vc.rootStorageSort(l)
 	h := vc.get(l.Heap, sortS)
